@@ -81,64 +81,36 @@ let () =
       | COk (evs, c) -> String.trim (Printf.sprintf "%s c=%s" (show_events evs) (rel c))
       | CAssert -> "ASSERT"
       | COob -> "OOB");
-  (* cur <path> <cstart|init> op... ; op = f<k><w>[:prim] | g<k><w> | d<k><w> *)
+  (* cur <path> <cstart|init> op... ; op = f<k><w>[:prim] | g<k><w> | d<k><w>
+     the call sequence is executed by the Coq function CursorScript.run_cur (proved against the
+     random-access addresses in CursorScriptProofs.v); only parsing and printing happen here *)
   register "cur" (function p :: cstart :: ops ->
       let m = the_msg () in
       let path = parse_path p in
-      (match msg_resolve !cur_be !cur_buf m !cur_base path with
-       | None -> "OOB"
-       | Some ((pos, bl), l) ->
-         let is_root = (path = []) in
-         let hdr = if is_root then m.m_hdr_size else Z0 in
-         let vstart = if is_root then !cur_base else pos in
-         let v = { lv_start = vstart; lv_level = pos; lv_bl = bl; lv_end = z_of_int (List.length !cur_buf) } in
-         let sl = slevel_at (the_slevel ()) path in
-         let CLevel (accs, _) = clevel_of sl hdr in
+      let sl = slevel_at (the_slevel ()) path in
+      let CLevel (accs, _) = clevel_of sl (path_hdr m path) in
+      let parsed = List.map (fun op ->
+          let kind = op.[0] in
+          let body, prim = (match String.index_opt op ':' with
+            | Some i -> String.sub op 0 i, Some (String.sub op (i + 1) (String.length op - i - 1))
+            | None -> op, None) in
+          let w = wrapper_of body.[String.length body - 1] in
+          let k = nat_of_int (int_of_string (String.sub body 1 (String.length body - 2))) in
+          let lop = (match kind with
+            | 'f' -> LF (k, w) | 'g' -> LG (k, w) | 'd' -> LD (k, w)
+            | _ -> failwith "op kind") in
+          (kind, body, prim, w, int_of_nat k, lop)) ops in
+      let start = if cstart = "init" then None else Some (z_of_string cstart) in
+      (match run_cur !cur_be !cur_buf m !cur_base path accs start (List.map (fun (_, _, _, _, _, l) -> l) parsed),
+             msg_resolve !cur_be !cur_buf m !cur_base path with
+       | None, _ | _, None -> "OOB"
+       | Some results, Some ((_, _), l) ->
          let Level (_, gs, ds) = l in
-         let fuel = default_fuel !cur_buf in
-         let c = ref (if cstart = "init" then pos else Z.add !cur_base (z_of_string cstart)) in
          let out = Buffer.create 128 in
-         let stop = ref false in
-         List.iter (fun op ->
-           if not !stop then begin
-             let kind = op.[0] in
-             let body, prim = (match String.index_opt op ':' with
-               | Some i -> String.sub op 0 i, Some (String.sub op (i + 1) (String.length op - i - 1))
-               | None -> op, None) in
-             let w = wrapper_of body.[String.length body - 1] in
-             let k = int_of_string (String.sub body 1 (String.length body - 2)) in
-             let r = (match kind with
-               | 'f' -> cur_field w v (List.nth accs k) !c
-               | 'g' ->
-                 let p = (match nth_group_pos !cur_be !cur_buf fuel gs (nat_of_int k) (Z.add pos bl) with
-                          | Some (((gp, _), _), _) -> Some gp | None -> None) in
-                 (match nth_group_pos !cur_be !cur_buf fuel gs (nat_of_int k) (Z.add pos bl) with
-                  | Some (((_, d), cbl), sub) ->
-                    let gsz at = (match groups_end !cur_be !cur_buf fuel (GCons (d, cbl, sub, GNil)) at with
-                                  | Some e -> Some (Z.sub e at) | None -> None) in
-                    cur_group w (k = 0) v p d.d_size gsz !c
-                  | None ->
-                    (* random access cannot reach it: need the dimension of group k anyway *)
-                    let rec nthg gs k = (match gs, k with
-                      | GCons (d, cbl, sub, _), 0 -> (d, cbl, sub)
-                      | GCons (_, _, _, r), k -> nthg r (k - 1)
-                      | GNil, _ -> failwith "group index") in
-                    let (d, cbl, sub) = nthg gs k in
-                    let gsz at = (match groups_end !cur_be !cur_buf fuel (GCons (d, cbl, sub, GNil)) at with
-                                  | Some e -> Some (Z.sub e at) | None -> None) in
-                    cur_group w (k = 0) v None d.d_size gsz !c)
-               | 'd' ->
-                 let first = (k = 0 && gs = GNil) in
-                 let t = List.nth ds k in
-                 let p = (match groups_end !cur_be !cur_buf fuel gs (Z.add pos bl) with
-                          | Some ge -> (match nth_data_pos !cur_be !cur_buf ds (nat_of_int k) ge with
-                                        | Some (dp, _) -> Some dp | None -> None)
-                          | None -> None) in
-                 cur_data w first v p (data_size_at !cur_be !cur_buf t) !c
-               | _ -> failwith "op kind") in
+         let rec zip ps rs = (match ps, rs with
+           | (kind, body, prim, w, k, _) :: ps', (_, r) :: rs' ->
              (match r with
               | COk (a, c') ->
-                c := c';
                 let res = (match kind, prim with
                   | 'f', Some pr when w <> WSkip && pr <> "v" ->
                     let prm = prim_of_string pr in
@@ -156,10 +128,12 @@ let () =
                      | None -> "@" ^ rel a ^ "#OOB")
                   | _, _ when w = WSkip -> ""
                   | _ -> "@" ^ rel a) in
-                Buffer.add_string out (Printf.sprintf "%s%s,c%s " body res (rel c'))
-              | CAssert -> Buffer.add_string out (body ^ ":ASSERT"); stop := true
-              | COob -> Buffer.add_string out (body ^ ":OOB"); stop := true)
-           end) ops;
+                Buffer.add_string out (Printf.sprintf "%s%s,c%s " body res (rel c'));
+                zip ps' rs'
+              | CAssert -> Buffer.add_string out (body ^ ":ASSERT")
+              | COob -> Buffer.add_string out (body ^ ":OOB"))
+           | _, _ -> ()) in
+         zip parsed results;
          String.trim (Buffer.contents out))
     | _ -> failwith "cur")
 
